@@ -1,0 +1,35 @@
+//go:build verif
+
+package veriflaws
+
+import (
+	"github.com/csgura/fp"
+	"github.com/csgura/fp/internal/verifspec"
+)
+
+// SemigroupLaws: Combine is associative.
+func SemigroupLaws[T any](s fp.Semigroup[T]) bool {
+	return verifspec.Forall(func(a, b, c T) bool {
+		return verifspec.Eq(verifspec.W(s.Combine(s.Combine(a, b), c)), verifspec.W(s.Combine(a, s.Combine(b, c))))
+	})
+}
+
+// MonoidLaws: Combine is associative and Empty is a two-sided identity.
+func MonoidLaws[T any](m fp.Monoid[T]) bool {
+	return verifspec.Forall(func(a, b, c T) bool {
+		return verifspec.Eq(verifspec.W(m.Combine(m.Combine(a, b), c)), verifspec.W(m.Combine(a, m.Combine(b, c))))
+	}) &&
+		verifspec.Forall(func(a T) bool {
+			return verifspec.Eq(verifspec.W(m.Combine(m.Empty(), a)), verifspec.W(a))
+		}) &&
+		verifspec.Forall(func(a T) bool {
+			return verifspec.Eq(verifspec.W(m.Combine(a, m.Empty())), verifspec.W(a))
+		})
+}
+
+// CloneIsCopy: the instance returns a value structurally equal to its input.
+func CloneIsCopy[T any](c fp.Clone[T]) bool {
+	return verifspec.Forall(func(a T) bool {
+		return verifspec.Eq(verifspec.W(c.Clone(a)), verifspec.W(a))
+	})
+}
